@@ -27,6 +27,23 @@ Init == s = [l |-> 1, sc |-> NoScn, w |-> WireNew(1, 1, "rec", FALSE, FALSE), d 
 
 ---------------------------------------------------------------------------
 ---------------------------------------------------------------------------
+\* clear() of a panel with 2^31 pixels or more (65535 x 65535) through a real Display on a real transport: the count
+\* handed to the transport does not fit TLC's integers and the picture cannot be painted; what can be judged is the
+\* window set-up in front, that the words on the bus are the colour repeated, and that the call is still sending when
+\* the operation budget of the recording ends (JudgeHuge, Judge.tla)
+HugeFill(sc, r) == sc.tag = "huge-fill" /\ r.name = "clear"
+JudgeHugeFill(sc, d, w0, w1, r) ==
+  LET cfg == sc.cfg  cm == w1.cmds
+      P == {"C01"} \cup (IF cfg.iface = "spi" THEN {"C06"} ELSE {"C07"})
+      pat == PixWords(cfg, r.args.c)
+      got == w1.ctl.burst
+      ls == LogicalSize(cfg, d.orient)
+  IN Chk(r.res = "budget", r, P, "clear of 2^31 pixels or more: the call ended before all of them were sent: " \o r.res \o " " \o r.pmsg \o " " \o r.ploc)
+     \o Chk(Len(cm) = 3 /\ cm[1].op = 42 /\ cm[1].p = Caset(0, ls[1] - 1) /\ cm[2].op = 43 /\ cm[2].p = Caset(0, ls[2] - 1)
+               /\ cm[3].op = 44, r, P \cup {"C08"}, "clear of 2^31 pixels or more: not one set-up of the full window followed by memory-write-start")
+     \o Chk(Len(got) > 0 /\ \A i \in 1 .. Len(got) : got[i] = pat[((i - 1) % Len(pat)) + 1], r, P,
+            "clear of 2^31 pixels or more: the words on the bus are not the colour repeated")
+
 Step(r) ==
   IF r.k = "scn" THEN
      [s EXCEPT !.l = @ + 1, !.sc = r,
@@ -79,6 +96,10 @@ Step(r) ==
                           \o Chk(r.res # "ok" \/ \A c \in DOMAIN fb : InWindow(sc.cfg, c), r, {"C19", "C02"},
                                  "the test image modified a cell outside the panel window")
                           \o Chk(r.res # "ok" \/ fr = "", r, {"C08"}, "framing: " \o fr)]
+  ELSE IF HugeFill(sc, r) THEN
+     \* (the rest of such a scenario is not judged: the recording of this call was cut at the operation budget)
+     [s EXCEPT !.l = @ + 1, !.w = w1, !.stat = st1, !.d = [d EXCEPT !.skip = TRUE],
+               !.viol = @ \o JudgeHugeFill(sc, d, w0, w1, r)]
   ELSE IF IsDrawing(r.name) THEN
      LET j == JudgeDrawing(sc, d, s.img, w0, w1, r, s.rowcap)
          img1 == IF r.res = "ok" THEN j.img ELSE FbView(w1.ctl)
